@@ -5,7 +5,8 @@ import ast
 
 from .. import astutil as A
 from ..cfg import cfg_of, within
-from ..dataflow import derives, local_defs, reaching, source_list
+from ..dataflow import derives, expand, local_defs, reaching, source_list
+from ..loader import enclosing_stmt
 
 EXPL = (
     'Placement and shape of the step phase, on all paths: _send_updates '
@@ -42,10 +43,15 @@ def check(ck):
 
 
 def _loop_of(x, stop):
-    p = x
+    """Innermost loop in whose *iteration* ``x`` is evaluated (the iterable
+    expression of a for statement is evaluated once, before that loop)."""
+    p, child = x, None
     while p is not None and p is not stop:
-        if isinstance(p, (ast.For, ast.While)):
+        if isinstance(p, ast.While):
             return p
+        if isinstance(p, ast.For) and child is not p.iter:
+            return p
+        child = p
         p = getattr(p, '_parent', None)
     return None
 
@@ -505,6 +511,8 @@ def r05_5(ck):
     cfga = cfg_of(app.node)
     for c in A.calls_in(app.node, '_add_step_path'):
         a2 = A.arg_of(c, 2, 'relative_dependencies')
+        if a2 is not None:
+            a2 = expand(app.node, a2, enclosing_stmt(c))
         okf = isinstance(a2, ast.Call) and A.call_name(a2) == 'get_in' and \
             A.is_name(a2.args[0], A.params_of(app.node)[3]) and A.is_name(
                 a2.args[1], A.params_of(app.node)[2])
